@@ -1,6 +1,7 @@
 package main
 
 import (
+	"sort"
 	"fmt"
 	"go/types"
 	"strings"
@@ -721,7 +722,12 @@ func (p *postState) addMod(comp, sort, ref string) {
 }
 
 func (p *postState) apply() {
+	var comps []string
 	for comp := range p.mods {
+		comps = append(comps, comp)
+	}
+	sort.Strings(comps)
+	for _, comp := range comps {
 		p.touch(comp)
 	}
 }
